@@ -1568,6 +1568,19 @@ fn section_certs(ctx: &mut Ctx, fx: &Fx, rng: &mut ChaCha8Rng) {
                 ctx.oracle("good_certificate_accepted", "Signed*Key::from_bytes + verify_bindings", &input, sec == "ok" && pubv == "ok", &format!("{sec}/{pubv}"));
             }
             ctx.oracle("public_and_secret_form_judged_alike", "Signed{Secret,Public}Key::from_bytes + verify_bindings", &input, sec == pubv, &format!("{sec}/{pubv}; {art}"));
+            // the same subkey carried as a Public-Subkey packet inside the transferable SECRET key
+            // (a secret key may hold public subkeys): judged by the same version rule
+            let psub = pgp::composed::SignedPublicSubKey::new(tsk.secret_subkeys[0].key.public_key().clone(), tsk.secret_subkeys[0].signatures.clone());
+            let tsk_mixed = SignedSecretKey::new(cert.primary_key.clone(), cert.details.clone(), vec![psub], vec![]);
+            let mixed_bytes = ser(&tsk_mixed);
+            let mixed = verdict(guarded(|| SignedSecretKey::from_bytes(&mixed_bytes[..])), |k| k.verify_bindings());
+            ctx.case(format!("c15_cert rep=sec pv={pv} details=1 subs=p{sv}:1.0.n"), mixed.clone());
+            ctx.stat(&format!("cert_versions:primary_v{pv}_public_subkey_v{sv}_in_secret_key:sec={mixed}"));
+            let input_m = format!("pv={pv} subkey_version={sv} public-subkey-in-secret-key");
+            if pv == 6 && sv != 6 {
+                ctx.oracle("v6_primary_only_v6_subkeys", "SignedSecretKey::from_bytes (key_parser::next), public subkey inside a secret key", &input_m, mixed == "parse", &format!("{mixed}; tsk={}", hx(&mixed_bytes)));
+            }
+            ctx.oracle("public_and_secret_form_judged_alike", "SignedSecretKey(with public subkey)::from_bytes vs SignedPublicKey::from_bytes (+ verify_bindings)", &input_m, mixed == pubv, &format!("{mixed}/{pubv}; tsk={}", hx(&mixed_bytes)));
         }
     }
     // v3 primary (tests/openpgp/pgp263-test.pub.asc) alone and with a subkey appended
